@@ -9,9 +9,9 @@ from . import common
 QDOMS = [
     None,
     {'Int': [0], 'Real': [Fraction(0)], 'String': ['']},
-    {'Int': [-2, -1, 0, 1, 2, 3, 10 ** 20 + 1],
-     'Real': [Fraction(-3, 2), Fraction(0), Fraction(1, 3), Fraction(2)],
-     'String': ['', 'a', 'b', 'ab', '7']},
+    {'Int': [-2, 0, 3, 10 ** 20 + 1],
+     'Real': [Fraction(-3, 2), Fraction(0), Fraction(1, 3)],
+     'String': ['', 'b', 'ab', '7']},
     {'Int': [5], 'Real': [Fraction(-1)], 'String': ['ab']},
 ]
 
@@ -46,7 +46,8 @@ def interps_for(syms, rng, n_samples=32, seed=0, limit=4096):
                              seed=seed)
 
 
-def compare(b1, b2, rng, n_samples=32, seed=0, extra_syms=(), qf_only=False):
+def compare(b1, b2, rng, n_samples=32, seed=0, extra_syms=(), qf_only=False,
+            step_budget=600000):
     """Compare the values of two blueprints on all/sampled interpretations.
 
     Returns (verdict, info): verdict in 'eq', 'diff', 'skip'.
@@ -57,14 +58,26 @@ def compare(b1, b2, rng, n_samples=32, seed=0, extra_syms=(), qf_only=False):
                                B.has_op(b2, ('forall', 'exists')))
     n = 0
     skipped = 0
+    expensive = 0
+    steps = 0
     exhaustive = R.interp_space(sorted(syms)) is not None
     for idx, I in enumerate(interps_for(syms, rng, n_samples, seed)):
         doms = QDOMS if has_q and idx % 4 == 0 else [QDOMS[idx % len(QDOMS)]
                                                      if has_q else None]
+        if steps > step_budget or expensive >= 3:
+            break
         for D in doms:
             try:
-                v1 = R.evaluate(b1, I, D)
-                v2 = R.evaluate(b2, I, D)
+                e1 = R.Evaluator(I, D, 100000)
+                e2 = R.Evaluator(I, D, 100000)
+                try:
+                    v1 = e1.ev(b1)
+                    v2 = e2.ev(b2)
+                finally:
+                    steps += e1.steps + e2.steps
+            except R.TooExpensive:
+                expensive += 1
+                continue
             except R.Unconstrained:
                 skipped += 1
                 continue
@@ -75,8 +88,8 @@ def compare(b1, b2, rng, n_samples=32, seed=0, extra_syms=(), qf_only=False):
                                 'v2': R.vrepr(v2)}
     if n == 0:
         return 'skip', {'skipped': skipped}
-    return 'eq', {'n': n, 'exhaustive': exhaustive and not has_q,
-                  'skipped': skipped}
+    return 'eq', {'n': n, 'exhaustive': exhaustive and not has_q
+                  and steps <= step_budget, 'skipped': skipped}
 
 
 class ShrinkBudget(object):
